@@ -352,7 +352,24 @@ func c10route(c *c10case) func(method, path string) c10beh {
 	}
 }
 
+// c10run: a record that is expected but missing (or an index list that is missing) is an upper bound
+// for the probe - it must finish its requests inside its own timeouts, which a starved machine
+// can make it miss although the code is right. Such a miss is re-run with 4x and 16x the timeout;
+// a defect (a fatal secondary request, a wrong decision rule) misses at every scale.
 func c10run(run *vlab.Run, idx int, c *c10case) {
+	for attempt := 0; attempt < 3; attempt++ {
+		cc := *c
+		for k := 0; k < attempt; k++ {
+			cc.TimeoutMs *= 4
+		}
+		if !c10once(run, idx, &cc, attempt == 2) {
+			return
+		}
+		run.Count("missing_record_cases_retried", 1)
+	}
+}
+
+func c10once(run *vlab.Run, idx int, c *c10case, final bool) (retry bool) {
 	srv := newC10Server(c.ServerTLS, c10route(c))
 	defer srv.close()
 	ip := fmt.Sprintf("127.%d.%d.%d", 1+idx%200, idx/200%250, 1+idx%250)
@@ -395,7 +412,7 @@ func c10run(run *vlab.Run, idx int, c *c10case) {
 		} else {
 			run.Inconclusive(fmt.Sprintf("probe still running after 40 s: %+v", c))
 		}
-		return
+		return false
 	}
 	dur := retT.Sub(t0)
 	const slack = 2 * time.Second
@@ -427,7 +444,7 @@ func c10run(run *vlab.Run, idx int, c *c10case) {
 			run.Violation("false-record:"+key, fmt.Sprintf("%s: primary answer %q must not be reported", c.Kind, c.Primary.Name), c)
 		}
 		run.Count("cancellations_checked", 1)
-		return
+		return false
 	}
 	bound := tmo + slack
 	if c.Kind == "elastic" {
@@ -453,7 +470,10 @@ func c10run(run *vlab.Run, idx int, c *c10case) {
 		if c.Secondary.Name != "ok" {
 			k = "secondary-failure-suppresses-record:" + c.Kind + ":" + c.Secondary.Name
 		}
-		run.Violation(k, fmt.Sprintf("%s: the primary request was answered with a JSON object (%q) but nothing was reported (secondary request: %q, err %v)", c.Kind, c.Primary.Name, c.Secondary.Name, err), c)
+		if !final && c.CancelMs == 0 {
+			return true
+		}
+		run.Violation(k, fmt.Sprintf("%s: the primary request was answered with a JSON object (%q) but nothing was reported at 1x, 4x and 16x the timeout (secondary request: %q, err %v)", c.Kind, c.Primary.Name, c.Secondary.Name, err), c)
 	case !want && res != nil:
 		b, _ := res.MarshalJSON()
 		k := "false-record:" + key
@@ -487,6 +507,9 @@ func c10run(run *vlab.Run, idx int, c *c10case) {
 			if c.Secondary.Name == "ok" {
 				var al map[string]interface{}
 				json.Unmarshal([]byte(c.Secondary.Body), &al)
+				if !reflect.DeepEqual(m.Indexes, al) && !final {
+					return true
+				}
 				if !reflect.DeepEqual(m.Indexes, al) {
 					run.Violation("record-indexes:elastic", fmt.Sprintf("record indexes %.200v differ from the served %s", m.Indexes, c.Secondary.Body), c)
 				}
@@ -510,6 +533,9 @@ func c10run(run *vlab.Run, idx int, c *c10case) {
 				asked = true
 			}
 		}
+		if !asked && dontcare == "" && !(c.Kind == "docker" && c.Ping.Mode != "") && !final {
+			return true
+		}
 		if !asked && dontcare == "" && !(c.Kind == "docker" && c.Ping.Mode != "") {
 			run.Violation("primary-request-missing:"+c.Kind, fmt.Sprintf("the server never received the primary request; requests seen: %v", srv.requests()), c)
 		}
@@ -524,6 +550,7 @@ func c10run(run *vlab.Run, idx int, c *c10case) {
 	if run.WantSample() && res != nil && c.Secondary.Name != "ok" {
 		run.Sample(map[string]interface{}{"scanner": c.Kind, "primary": c.Primary.Name, "secondary": c.Secondary.Name, "reported": true, "probe_ms": dur.Milliseconds()})
 	}
+	return false
 }
 
 func TestVerifC10Probes(t *testing.T) {
@@ -654,7 +681,7 @@ func TestVerifC10Wired(t *testing.T) {
 			hosts = append(hosts, h)
 			fmt.Fprintf(&file, "{\"ip\":\"%s\",\"port\":%d}\n", h.ip, h.srv.port)
 		}
-		tmo := 300 * time.Millisecond
+		tmo := 2 * time.Second // generous: the decision is judged here, the time bounds in the probes unit
 		run.Case(fmt.Sprintf("wired%03d", i), map[string]interface{}{"scanner": kind, "proto": proto, "targets": file.String()})
 		out := &recOut{clock: &rigClock{}}
 		ctx, cancel := context.WithCancel(context.Background())
